@@ -173,6 +173,21 @@ impl Prop for C13 {
             ));
         }
         f.push(Family::new(
+            "after-multibyte-text",
+            Mode::Full,
+            "a based literal behind multi-byte characters on the same line: '<name> = <literal>' then '<name> + 1' and '<name> to binary' for names [ölçü, sayı, ñ, 日本] x literals in base 16 / 8 / 2 x languages en, tr; and '<literal> + 1' behind a multi-byte word ('ş 0x1F + 1' is left to C01/C17): the literal keeps its value",
+            move |ch| {
+                let name = *ch.pick(&["ölçü", "sayı", "ñ", "日本"]);
+                let (lit, n, base) = *ch.pick(&[("0x1F", 31u64, Base::Hex), ("0XFF", 255, Base::Hex), ("0o17", 15, Base::Oct), ("0b101", 5, Base::Bin)]);
+                let lang = *ch.pick(&["en", "tr"]);
+                match ch.choose(3) {
+                    0 => Some(Case::Line(LineCase::new(format!("{} = {}", name, lit), Expect::Value(Val::Number(n as f64, base), 0.0), "after-multibyte").with_lang(lang))),
+                    1 => Some(Case::Line(LineCase::new(format!("{} = {}\n{} + 1", name, lit, name), Expect::Unspecified, "after-multibyte").with_lang(lang).with_number(n as f64 + 1.0))),
+                    _ => Some(Case::RoundTrip { text: format!("{} = {}\n{} to binary", name, lit, name), n: n as f64, base: Base::Bin, out: printed(n, Base::Bin) }),
+                }
+            },
+        ));
+        f.push(Family::new(
             "embedded-prefixes",
             Mode::Full,
             "hex literals whose digits contain what looks like another radix prefix (0b0, 0b1, 0B1 ...) or a leading zero: 0x10B0, 0x10b1, 0xA0B0C, 0x0b1, 0X0B101, 0xb0b1, 0x0, 0x00ff, alone, converted to decimal / binary and in a sum",
@@ -245,7 +260,7 @@ impl Prop for C13 {
                             v.violation = Some(format!("panic: {}", p.message));
                             v.site = Some(p.site.clone());
                         }
-                        _ => match run.single() {
+                        _ => match run.last() {
                             Some(Slot::Ok { val: Val::Number(x, _), .. }) if obs::close(*x, want, 1e-12) => {}
                             _ => v.violation = Some("wrong value".into()),
                         },
